@@ -81,7 +81,7 @@ pub fn apply(s: &mut Setup, a: In) {
 
 pub fn run(rep: &mut Rep) {
     let alpha = alphabet(&[1, 2]);
-    let len = if rep.quick() { 3 } else { 4 };
+    let len = if rep.quick() { 3 } else { 5 };
     let n = alpha.len();
     let total = (n as u64).pow(len as u32);
     rep.note(&format!("exhaustive: all {total} sequences of length {len} over an alphabet of {n} inbound packets (PUBLISH qos 0/1/2 x id 1/2 x DUP x subscription identifier registered/stream-dropped/never-registered/absent; PUBREL id 1/2), check after every packet"));
@@ -109,7 +109,7 @@ pub fn run(rep: &mut Rep) {
         add_counters(rep, &s.w);
     }
     // random longer sequences with ids across the 16-bit range, interleaved with client operations
-    let walks = if rep.quick() { 300 } else { 6000 };
+    let walks = if rep.quick() { 300 } else { 20000 };
     for widx in 0..walks {
         let id = format!("rand:{widx}");
         if !rep.take(total + widx, &id) {
